@@ -139,7 +139,7 @@ def prim : Prim FV where
   nan := some nanF
   inf := some infF
   ofInt := fun v => some (ofIntF v)
-  ofDec := ofDecF
+  parseFloat := decParse ofDecF (some infF) (some nanF)
   add := lift2 (· + ·)
   sub := lift2 (· - ·)
   mul := lift2 (· * ·)
